@@ -354,9 +354,18 @@ def battery(ctx, reps, S, ops, shapes):
     mult = (R.min_bary(T0, T0.mean(axis=1)) > BARY_IN).sum(axis=1)
     if len(T0) and mult.max() > 1:
         ctx.label("input:duplicate-triangles")
+    def hits():
+        return ctx.excluded_hits + sum(ctx.known_hits.values())
+
+    h0 = hits()
     _after(ctx, reps, S, "initial", shapes)
     ups = 0
     for op in ops:
+        if hits() != h0:
+            # a step already failed with a key that is known / already reported in this run: the state is
+            # corrupt, later failures would only be consequences of the same root cause
+            ctx.label("stopped-after-reported-failure")
+            break
         n = len(reps[0].T)
         kind = op["op"]
         if kind == "up":
@@ -438,18 +447,19 @@ def shape_specs(draw):
 
 @st.composite
 def op_lists(draw, max_ops=4, max_up=3):
-    sel = st.one_of(
+    sel_nonempty = st.one_of(
         st.builds(lambda idx: {"op": "sel", "idx": idx}, st.lists(st.integers(0, 10 ** 6), min_size=1, max_size=8)),
         st.builds(lambda idx: {"op": "sel", "idx": idx}, st.lists(st.integers(0, 10 ** 6), min_size=1, max_size=3)),
         st.builds(lambda a, b: {"op": "sel", "mode": "stride", "start": a, "step": b},
                   st.integers(0, 5), st.integers(0, 2)),
+        st.just({"op": "sel", "mode": "stride", "start": 0, "step": 0}),
     )
-    sel = st.integers(0, 9).flatmap(lambda t: st.just({"op": "sel", "idx": []}) if t == 9 else sel)
+    sel = st.integers(0, 9).flatmap(lambda t: st.just({"op": "sel", "idx": []}) if t >= 8 else sel_nonempty)
     style = draw(st.sampled_from(["mixed", "ups-first"]))
     ops = []
     if style == "ups-first":
         ops = [{"op": "up"}] * draw(st.integers(1, max_up))
-    rest = draw(st.lists(st.one_of(st.just({"op": "up"}), st.just({"op": "nb"}), st.just({"op": "nb"}), sel),
+    rest = draw(st.lists(st.one_of(st.just({"op": "up"}), st.just({"op": "nb"}), st.just({"op": "nb"}), sel, sel),
                          min_size=0 if ops else 1, max_size=max(1, max_ops - len(ops))))
     out, ups = [], 0
     for o in ops + rest:
@@ -584,8 +594,8 @@ def cases_enum_small(tier):
 
 SUBCHECKS = [
     SubCheck("enum_small", body_coords_ops, cases=cases_enum_small, shards={"quick": 4, "thorough": 16}),
-    SubCheck("coords_ops", body_coords_ops, strategy=coords_ops_cases(), examples={"quick": 640, "thorough": 8000},
-             shards={"quick": 8, "thorough": 16}),
+    SubCheck("coords_ops", body_coords_ops, strategy=coords_ops_cases(), examples={"quick": 640, "thorough": 16000},
+             shards={"quick": 8, "thorough": 32}),
     SubCheck("limits_coord", body_limits_coord, strategy=limits_cases(0.0), examples={"quick": 120, "thorough": 1600},
              shards={"quick": 2, "thorough": 8}),
     SubCheck("limits_array", body_limits_array, strategy=limits_cases(0.05), examples={"quick": 120, "thorough": 1600},
